@@ -105,7 +105,8 @@ def gen_torrent(rng, idx, maxlen=12, empties=False):
             r = rng.random()
             if r < 0.12 and i > 0:
                 npad += 1
-                files.append(TFile([b".pad", b"%d" % rng.randint(0, 99999)], bytes(rng.randint(1, 6)), pad=True))
+                padname = b"%d" % rng.randint(0, 99999) if rng.random() < 0.7 else bytes(rng.choice(b"0123456789") for _ in range(rng.choice([1, 19, 20, 21, 24, 40])))
+                files.append(TFile([b".pad", padname], bytes(rng.randint(1, 6)), pad=True))
                 while tuple(files[-1].path) in used:
                     files[-1].path[1] += b"0"
                 used.add(tuple(files[-1].path))
@@ -206,7 +207,10 @@ def gen_world(rng, ntorrents=None, allow_shared=True, empties=False, export_heav
             w.torrents.pop()
     w.presented = list(range(len(w.torrents)))
     nscan = rng.choice([1, 1, 2, 3])
-    scan_roots = [(b"scan%d" % i,) for i in range(nscan)]
+    if rng.random() < 0.3:
+        scan_roots = [(nm,) for nm in [b"media", b"media2", b"media22"][:nscan]]     # textual prefixes of one another, not ancestors
+    else:
+        scan_roots = [(b"scan%d" % i,) for i in range(nscan)]
     for s in scan_roots:
         w.put_dir(s)
     w.scans = list(scan_roots)
@@ -290,7 +294,7 @@ def gen_world(rng, ntorrents=None, allow_shared=True, empties=False, export_heav
             w.notes.setdefault("export_states", {}).setdefault(st, 0)
             w.notes["export_states"][st] += 1
     if rng.random() < 0.3:
-        w.files[(b"scan0", b"sym")] = ("symlink", b"../loose.bin")
+        w.files[scan_roots[0] + (b"sym",)] = ("symlink", b"../loose.bin")
     if rng.random() < 0.25:
         w.put_file(tuple(list(w.export) + [b"stray.txt"]), b"stray")
     w.resize = rng.random() < 0.35
